@@ -576,8 +576,36 @@ func (p *Prog) ArgFuncsAt(site ssa.CallInstruction, callee *ssa.Function, par *s
 	if idx >= len(args) || args[idx] == nil {
 		return nil
 	}
-	fns, _, _ := resolveFuncValue(args[idx], map[ssa.Value]bool{})
-	return fns
+	fns, pars, _ := resolveFuncValue(args[idx], map[ssa.Value]bool{})
+	// a callback that is only forwarded: what the forwarding function's own callers pass (three levels)
+	return append(fns, p.forwarded(pars, 3)...)
+}
+
+func (p *Prog) forwarded(pars []*ssa.Parameter, depth int) []*ssa.Function {
+	if depth == 0 {
+		return nil
+	}
+	var out []*ssa.Function
+	for _, q := range pars {
+		fw := q.Parent()
+		idx := paramIndex(fw, q)
+		if idx < 0 {
+			continue
+		}
+		for _, e := range p.In[fw] {
+			args := e.Site.Common().Args
+			if e.Site.Common().IsInvoke() {
+				args = append([]ssa.Value{nil}, args...)
+			}
+			if idx >= len(args) || args[idx] == nil {
+				continue
+			}
+			fns, more, _ := resolveFuncValue(args[idx], map[ssa.Value]bool{})
+			out = append(out, fns...)
+			out = append(out, p.forwarded(more, depth-1)...)
+		}
+	}
+	return out
 }
 
 // Callees returns the resolved module callees of one call site.
